@@ -411,6 +411,53 @@ def h_float_routing(eng):
         eng.fail("sin:dimensional-accepted")
 
 
+def h_nonmultiplicative_arrays(eng):
+    """float arrays in offset and delta units: the binary operators read their operands (twice
+    the same expression, twice the same answer); with autoconvert_offset_to_baseunit the product
+    functions take an offset operand -- first or second -- at its base-unit value"""
+    ureg = regs.float_default()
+    Qy = ureg.Quantity
+    P = eng.prove
+    units = ["delta_degF", "kelvin", "delta_degC", "degC", "degF", "degR", "millikelvin"]
+    for ua in units:
+        for ub in units:
+            for oname, op in (("add", operator.add), ("sub", operator.sub), ("eq", operator.eq), ("lt", operator.lt)):
+                a0, b0 = np.array([9.0, 18.0, -4.5]), np.array([1.0, 2.5, 300.0])
+                A, B = Qy(a0.copy(), ua), Qy(b0.copy(), ub)
+                outs = []
+                for _ in range(2):
+                    try:
+                        r = op(A, B)
+                        outs.append(("ok", str(getattr(r, "units", "")), [float(v) for v in np.asarray(getattr(r, "magnitude", r), dtype=float)]))
+                    except (OffsetUnitCalculusError, DimensionalityError) as ex:
+                        outs.append((type(ex).__name__,))
+                P(outs[0] == outs[1], f"{oname}:{ua},{ub}:asked-twice-same-answer")
+                P(list(A.magnitude) == list(a0) and list(B.magnitude) == list(b0) and str(A.units) == str(ureg.Unit(ua)) and str(B.units) == str(ureg.Unit(ub)), f"{oname}:{ua},{ub}:operands-untouched")
+    auto = regs.float_default(autoconvert_offset_to_baseunit=True)
+    Qa = auto.Quantity
+    v3, w3 = np.array([1.0, 2.0, 3.0]), np.array([10.0, 25.0, -5.0])
+    for ua, ub in (("meter", "degC"), ("degC", "meter"), ("degF", "degC"), ("meter", "degF"), ("inch", "kelvin"), ("degC", "degC")):
+        for fname, f in (("dot", np.dot), ("cross", np.cross), ("method-dot", lambda p, q: p.dot(q)), ("operator-mul", operator.mul)):  # (np.multiply: known finding K8)
+            A, B = Qa(v3.copy(), ua), Qa(w3.copy(), ub)
+            try:
+                got = f(A, B)
+            except Exception as ex:  # noqa: BLE001
+                got = type(ex).__name__
+            try:
+                want = f(A.to_base_units(), B.to_base_units())
+            except Exception as ex:  # noqa: BLE001
+                want = type(ex).__name__
+            if isinstance(got, str) or isinstance(want, str):
+                P(isinstance(got, str) and isinstance(want, str), f"autoconvert:{fname}:{ua},{ub}:same-kind-of-outcome")
+                continue
+            try:
+                ok = got.to_base_units().units == want.to_base_units().units and np.allclose(got.to_base_units().magnitude, want.to_base_units().magnitude, rtol=1e-12, atol=0)
+            except (OffsetUnitCalculusError, DimensionalityError):
+                ok = False  # a result that cannot even be expressed in base units
+            P(bool(ok), f"autoconvert:{fname}:{ua},{ub}:offset-operand-at-its-base-unit-value")
+            P(list(A.magnitude) == list(v3) and list(B.magnitude) == list(w3), f"autoconvert:{fname}:{ua},{ub}:operands-untouched")
+
+
 def h_incompatible(eng, name, ua, ub):
     ureg = regs.default(eng)
     arity, f, rule = FUNCS[name]
@@ -510,6 +557,7 @@ def cases(tier, seed):
         for ua, ua2 in (("percent", "dimensionless"),) + ((("ppm", "percent"), ("dimensionless", "percent")) if big else ()):
             out.append(Case("H16.e", f"{name}:{ua}->{ua2}", M, "h_dimless", {"name": name, "ua": ua, "ua2": ua2}, opts=opts, validate=1, weight=4.0))
     out.append(Case("H16.f", "float-routing", M, "h_float_routing", {}, kind="conc"))
+    out.append(Case("H16.f", "nonmultiplicative-arrays", M, "h_nonmultiplicative_arrays", {}, kind="conc"))
     out.append(Case("H16.d", "inplace:meter,inch", M, "h_inplace", {"ua": "meter", "ub": "inch"}, opts=opts, validate=1))
     out.append(Case("H16.d", "inplace:hour,second", M, "h_inplace", {"ua": "hour", "ub": "second"}, opts=opts, validate=1))
     return out
